@@ -17,7 +17,10 @@ from the report.  Differences that make it robust for hostile random networks:
 * species that cannot be present in any atom-conserving composition ("forced zero") are found
   by linear programming and removed; the iteration starts from the strictly interior point of
   the max-min LP, i.e. it is atom-conserving from the first step;
-* the iteration works on ln n_i, so 1e-300 mole fractions are unproblematic;
+* the iteration works on ln n_i, so 1e-300 mole fractions are unproblematic; the standard Gibbs
+  energies are first shifted by the best element-wise linear fit (a gauge change of the element
+  potentials that leaves the minimiser unchanged) and, if the plain iteration does not converge,
+  the problem is continued from the maximum-entropy composition (mu0 scaled by tau = 0 -> 1);
 * the result carries its own certificate: Lagrangian duality gives, for *every* n >= 0,
 
       G(n) - pi.(A^T n - b)  >=  pi.b - N(n) * max(0, ln s),    s = sum_i exp(A_i.pi - mu0_i),
